@@ -86,6 +86,14 @@ def random_variant(msh, r, flips=True):
     return {**out, "op": "py_random"}
 
 
+def hull_variant(msh, same_faces):
+    """Faces as scipy.spatial.ConvexHull triangulates the vertex set (TriangularMesh.from_ConvexHull uses exactly these)."""
+    from scipy.spatial import ConvexHull  # pylint: disable=no-name-in-module
+
+    faces = (ConvexHull(np.array(msh["verts"], dtype=float)).simplices + 1).astype(int).tolist()
+    return {**msh, "faces": faces, "kind": "closed" if same_faces else "hull", "op": "py_hull"}
+
+
 # ------------------------------------------------------------------ kappas
 def make_kappas(spec):
     """spec: list of ("id",) | ("rand", salt, lo, hi) | ("decade", d, salt) -> list of (Kappa, info dict)"""
